@@ -257,6 +257,9 @@ func c10ValueKey(v parquet.Value) string {
 		return head + fmt.Sprintf("bytes x%x", v.ByteArray())
 	case parquet.FixedLenByteArray:
 		return head + fmt.Sprintf("fixed x%x", v.ByteArray())
+	case parquet.Int96:
+		x := v.Int96()
+		return head + fmt.Sprintf("int96 %08x%08x%08x", x[2], x[1], x[0])
 	}
 	return head + v.Kind().String() + " " + v.String()
 }
